@@ -250,16 +250,33 @@ def report_compile(ctx, mods, rec, what):
         ctx.violation(sig, f'{what} ({detail}); minimised: {rec2.get("minimised_ops", "")}'[:600], rec2)
 
 
+def corpus_circuits(mods):
+    """Hand-picked inputs replayed first: past failures of this property (minimised)."""
+    cirq = mods['cirq']
+    q = cirq.LineQubit.range(3)
+    return [
+        cirq.Circuit(cirq.ThreeQubitDiagonalGate([-1.5186, 0.3948, math.pi, -3.4363, 2 * math.pi, math.pi / 2, math.pi, -6.3889]).on(q[0], q[2], q[1])),
+        cirq.Circuit(cirq.ControlledOperation(controls=(q[0], q[2]), sub_operation=cirq.H(q[1]), control_values=cirq.SumOfProducts(((0, 1), (1, 0))))),
+        cirq.Circuit(cirq.CZ(q[0], q[1]), cirq.CZ(q[0], q[1]), cirq.CZ(q[0], q[1])),
+    ]
+
+
 def compile_stream(ctx, mods, checks, per_target):
     cirq = mods['cirq']
     rng = ctx.rng
+    corpus = corpus_circuits(mods)
     for tname in TARGETS:
-        for i in range(per_target):
+        for i in range(per_target + (len(corpus) if tname in ('cz', 'sqrt_iswap', 'ionq_api') else 0)):
             kind = KINDS[i % len(KINDS)] if i < len(KINDS) else rng.choice(KINDS)
             nq = rng.choice([1, 2, 2, 3, 3])
             if kind == 'circuit_op':
                 nq = max(nq, 2)
-            circuit, qs, tagged = gen_input(mods, rng, tname, kind, nq)
+            if i >= per_target:
+                kind, nq, tagged = 'corpus', 3, False
+                circuit = corpus[i - per_target].copy()
+                qs = cirq.LineQubit.range(3)
+            else:
+                circuit, qs, tagged = gen_input(mods, rng, tname, kind, nq)
             deep = kind == 'circuit_op' and rng.random() < 0.3 and not tname.startswith(('ionq', 'aqt', 'pasqal'))
             passes = rng.choice([1, 1, 1, None])
             rec = case_record(cirq, tname, kind, circuit, tagged, deep, passes)
@@ -617,7 +634,8 @@ def output_membership_checks(ctx, mods, tname, gs, out, checks, rec):
     except Unmodelled as e:
         ctx.mark_broken('model:gateset-family', f'{tname}: {e}')
         return
-    checks.append((f'compile:{tname}:membership', f'validate {gterm} {ops}', f'the membership model rejects an operation of the output of optimize_for_target_gateset({tname}) that Cirq accepts',
+    cirq_says = 'true' if gs.validate(out) else 'false'
+    checks.append((f'compile:{tname}:membership', f'Bool.eqb (validate {gterm} {ops}) {cirq_says}', f'the membership model and gateset.validate disagree on the output of optimize_for_target_gateset({tname})',
                    dict(signature=f'compile:{tname}:membership-model', **rec)))
 
 
@@ -1203,6 +1221,12 @@ def run(ctx):
     mapping_manager_stream(ctx, mods, 60 * n)
     device_stream(ctx, mods, 28 * n, 40)
     evaluate(ctx, mods, checks, confirm)
+    # translation validation: programs = compiler and router runs whose real output was validated
+    ctx.cov['programs'] = sum(v for k, v in ctx.streams.items() if (k.startswith('compile:') or k.startswith('route:')) and not k.endswith(':relation'))
+    ctx.cov['model_evaluations'] = dict(membership=sum(v for k, v in ctx.streams.items() if k.startswith('membership:')),
+                                        device=sum(v for k, v in ctx.streams.items() if k.startswith('device:')),
+                                        mapping_manager=ctx.streams.get('mapping_manager', 0),
+                                        unitary_or_certificate_checks=len(checks))
 
 
 def py_eval(mods, text):
